@@ -32,6 +32,7 @@ Step ==
                            /\ Report("same-object", TRUE, e.ptr)
                            /\ Report("handler", "D", e.h)
             /\ Report("stashsize", Len(stash), e.ssize)
+            /\ Report("foreign-payloads", 0, e.foreign)   \* a handler was invoked with a nil / unknown payload
             /\ mbox' = IF mbox = <<>> THEN mbox ELSE Tail(mbox)
             /\ cur' = e.id
             /\ UNCHANGED <<stash, buffer>>
